@@ -291,7 +291,15 @@ def eval_compiled(comp, item, ov=None, stats=None, sheet='S', addrs=None):
         return {a: (kind, cls) for a in addrs}
     ex = new_executor(cls)
     if ov:
-        ex.set_cells([Cell(sheet, *split_a1(_subst(a, base)), value=v) for a, v in ov])
+        cells = [Cell(sheet, *split_a1(_subst(a, base)), value=v) for a, v in ov]
+        if len(cells) > 1 and addrs:
+            # the operands arrive in two batches with a query in between (same final state as one batch; an
+            # implementation that forgets earlier batches shows up in every override-driven check)
+            ex.set_cells(cells[:1])
+            eval_cell(ex, sheet, *split_a1(_subst(addrs[0], base)))
+            ex.set_cells(cells[1:])
+        else:
+            ex.set_cells(cells)
     out = {}
     for a in addrs:
         if stats is not None:
